@@ -64,6 +64,9 @@ func main() {
 		if _, ok := c["id"]; !ok {
 			c["id"] = n
 		}
+		if p := os.Getenv("VERIF_PROP"); p != "" {
+			c["prop"] = p
+		}
 		runCase(c)
 		enc.Encode(c)
 	}
